@@ -326,26 +326,35 @@ def run(ctx, ck):
             ok = fl.cfg.must_pass(fl.cfg.exit.id, ids)
         ck.ob('R-FRESH.assign-before-update', '%s|%s-always-assigned' % (q, attr), ok, f.loc(),
               '%s is assigned on every path through %s' % (attr, q.split('.')[-1]))
-    # compute(): order of the pipeline
+    # compute(): order of the pipeline, decided on the symbolic walk (literal loops over method-name
+    # tables, getattr with constant names and private helpers are resolved): on every path the four
+    # steps are called exactly once, in order, and self.power is stored after the solve
+    from ..symx import SymExec
     f = m.func('mininec.Mininec.compute')
-    fl = ctx.flow(f)
-    pos = []
+    paths = [p_ for p_ in SymExec(ctx, f, bind_loops=True, private_only=True, max_paths=2000).run() if p_.end != 'raise']
+    ck.floor('paths through compute', len(paths), 1)
+    seqs = set()
+    pw_ok = True
+    for p_ in paths:
+        seq = []
+        for i_, ev in enumerate(p_.events):
+            if ev[0] == 'call' and isinstance(ev[1].func, ast.Attribute) and norm(ev[1].func.value) == 'self' and \
+               ev[1].func.attr in SOLVE_ORDER:
+                seq.append(ev[1].func.attr)
+            if ev[0] == 'store' and ev[1] == 'self.power':
+                seq.append('<power>')
+        seqs.add(tuple(seq))
+    want_seq = tuple(SOLVE_ORDER) + ('<power>',)
     for name in SOLVE_ORDER:
-        cs = calls_in(f.node, attr=name)
-        if len(cs) != 1:
-            ck.ob('R-FRESH.solve-order', f.qual + '|' + name, False, f.loc(),
-                  '%d calls of %s in compute (expected exactly 1)' % (len(cs), name))
-            continue
-        pos.append((name, fl.node_id_of(cs[0]), cs[0]))
-    for (a, na, ca), (b, nb, cb) in zip(pos, pos[1:]):
-        ok = fl.cfg.must_pass(nb, {na})
-        ck.ob('R-FRESH.solve-order', '%s|%s<%s' % (f.qual, a, b), ok, f.loc(cb),
-              '%s precedes %s on every path' % (a, b))
-    pw = assigns_to_attr(f, 'self.power')
-    if pw and pos:
-        ok = fl.cfg.must_pass(fl.node_id_of(pw[0]), {pos[-1][1]})
-        ck.ob('R-FRESH.solve-order', f.qual + '|power-after-solve', ok, f.loc(pw[0]),
-              'self.power is computed after the currents')
+        counts = sorted({sq.count(name) for sq in seqs})
+        ck.ob('R-FRESH.solve-order', f.qual + '|' + name, counts == [1], f.loc(),
+              '%s is called exactly once on every path' % name if counts == [1] else
+              '%s calls of %s in compute depending on the path (expected exactly 1)' % (counts, name))
+    for a_, b_ in zip(want_seq, want_seq[1:]):
+        ok = all(a_ in sq and b_ in sq and sq.index(a_) < sq.index(b_) for sq in seqs) and bool(seqs)
+        key = '%s|%s<%s' % (f.qual, a_, b_) if b_ != '<power>' else f.qual + '|power-after-solve'
+        ck.ob('R-FRESH.solve-order', key, ok, f.loc(),
+              ('%s precedes %s on every path' % (a_, b_)) if b_ != '<power>' else 'self.power is computed after the currents')
     # loads are accumulated with += : exactly one caller, which first refills the matrix
     callers = [q for q, es in prog.edges.items() for e in es
                if e.callee.qual == 'mininec.Mininec.compute_impedance_matrix_loads']
